@@ -142,6 +142,10 @@ CORPUS = {
         M("regions-sorted-descending", G, [("for fname in sorted(self.data.functions.keys()):", "for fname in sorted(self.data.functions.keys(), reverse=True):")], ["R07.a"]),
         M("end-label-unterminated-under-tail-call", G, [("if (not apply_tail_call_optimization or has_early_return) and (", "if (not apply_tail_call_optimization) and (")], ["R07.c"]),
         N("sorted-without-keys-call", G, [("for fname in sorted(self.data.functions.keys()):", "for fname in sorted(self.data.functions):")]),
+        M("regions-sorted-by-length", G, [("for fname in sorted(self.data.functions.keys()):", "for fname in sorted(self.data.functions.keys(), key=lambda k: -len(k)):")], ["R07.a"]),
+        M("main-region-never-emitted", G, [('            if fname == "" or func.is_called:\n                for line in func.code:', '            if fname != "" and func.is_called:\n                for line in func.code:')], ["R07.a"]),
+        N("regions-from-filtered-list", G, [('        for fname in sorted(self.data.functions.keys()):\n            func = self.data.functions[fname]\n            if func.is_constexpr:\n                continue\n            if fname != "" and func.is_called:\n                func.add_ra_instructions(self.data.options)\n            if fname == "" or func.is_called:\n                for line in func.code:\n                    self.code.append(line)\n',
+                                              '        emitted = [f for _, f in sorted(self.data.functions.items()) if f.is_called and not f.is_constexpr]\n        for func in emitted:\n            if func.node is not None:\n                func.add_ra_instructions(self.data.options)\n        self.code = [line for func in emitted for line in func.code]\n')]),
     ],
     "C08": [
         M("wrong-fold-constant", U, [("val = (val ^ 0x80000000) - 0x80000000", "val = (val ^ 0x80000000) - 0x8000000")], ["R08.a"]),
@@ -215,6 +219,7 @@ CORPUS = {
     ],
     "C13": [
         M("uncalled-functions-emitted", G, [('            if fname == "" or func.is_called:\n                for line in func.code:', "            if True:\n                for line in func.code:")], ["R13.a"]),
+        M("called-functions-dropped", G, [('            if fname == "" or func.is_called:\n                for line in func.code:', '            if fname == "":\n                for line in func.code:')], ["R13.a"]),
         M("constexpr-functions-emitted", G, [("            if func.is_constexpr:\n                continue\n", "")], ["R13.a"]),
         M("main-guard-true-for-libraries", CP, [('            if mod_name == "":\n                mod_name = "__main__"', '            if mod_name != "lib":\n                mod_name = "__main__"')], ["R13.b"]),
         M("dunder-name-is-builtin", U, [('return name != "__name__" and name in symbols.__dict__', "return name in symbols.__dict__")], ["R13.b"]),
